@@ -781,6 +781,11 @@ func (w *World) opSess(op Op) {
 		if op.S == "mount-nofrom" {
 			q.Set("mount", w.obj(op.Obj).digest(op.Algo2))
 		}
+		if op.S == "mount-from" {
+			// a mount whose source may or may not hold the blob: when it does not, the registry falls back to a session
+			q.Set("mount", w.obj(op.Obj).digest(op.Algo2))
+			q.Set("from", w.repoName(op.B))
+		}
 		w.sessPost(op.Sess, w.repoName(op.Repo), q, nil, w.obj(op.Obj))
 		return
 	}
